@@ -246,6 +246,29 @@ def run(ctx):
             sig = tuple(pop_side(ev, a, reg) for a in c.args[:2])
             ops_.append((s, sig))
         vm_tab[v] = (sorted(set(ops_)), negated(prog, ev, reg, v, INSTR))
+    # ---- K11 (after seed C04-9): the interpreter has no arithmetic of its own.  In the arm of an arithmetic / membership
+    # instruction the value that is pushed is the result of the shared operator function and nothing else: a "fast path"
+    # that computes on the operands itself (`checked_div` on two i64) cannot be seen by the tables above and gives the
+    # run-time evaluator a semantics the compile-time evaluator does not have (truncating vs euclidean division).
+    PUSHFN = "minijinja::vm::context::Stack::push"
+    n11 = 0
+    for v in ("Add", "Sub", "Mul", "Div", "IntDiv", "Rem", "Pow", "Neg", "In", "StringConcat"):
+        reg = vm_regs.get(v)
+        if not reg:
+            continue
+        want = {s_ for s_, _ in vm_tab.get(v, ([], False))[0]}
+        thru = lambda k: 0 if (k.name.endswith("Try>::branch") or k.name.endswith("::from_residual")) else None
+        for c in arms.calls_in(ev, reg):
+            if c.name != PUSHFN or len(c.args) < 2:
+                continue
+            n11 += 1
+            srcs = flow.origins(ev, c.args[1], through_calls=thru, within=reg)
+            odd = [o for o in srcs if not (o.kind == "call" and sem_name(o.call) in want)]
+            ctx.ob("C04.K11.interpreter-arm-pushes-the-operator's-result", "Instruction::%s" % v, bool(srcs) and not odd,
+                   "the %s arm of the interpreter pushes a value that is not the result of %s (%s): the run-time operator has a "
+                   "path of its own that the compile-time evaluation of the same expression does not take"
+                   % (v, sorted(want), [repr(o)[:80] for o in odd][:3]), ev.where(c.bb))
+    ctx.floor("C04.K11 pushes in the arithmetic arms of the interpreter", n11, 8)
     # CompareAndPreserve: inner switch on CompareOp
     cap_reg = vm_regs.get("CompareAndPreserve", set())
     cap_tab = {}
